@@ -1,5 +1,6 @@
 import RainModel.Model.Discipline
 import RainModel.Generated.Access
+import RainModel.Lemmas.LockGraph
 /-!
 C20 — no data races or lock-ups under concurrent API use (weakest level: `other`).
 
@@ -60,6 +61,93 @@ registry lock (in `Session.Close`), and no function reachable from the event loo
 theorem lock_order_acyclic :
     heldWhileWaiting.all (fun h => !(loopLocks.contains h.2.1)) = true := by
   decide +kernel
+
+/-! ### Lock nesting (potential deadlocks among the locks themselves)
+
+`lockEdges` (regenerated from the source on every run) has one entry per acquisition of a lock made while
+another lock is held — lexically, or inside a function called from the critical section; a bbolt transaction
+counts as holding `bbolt.rw` (Update/Batch and every `resumer` call) or `bbolt.ro` (View).  A deadlock among
+locks needs a cycle `l₀ → l₁ → … → l₀` of "holds lᵢ, acquires lᵢ₊₁" in that table.  The kernel evaluates the
+check on the table (`lock_nesting_acyclic`); `lock_nesting_no_cycle` is what the check means, for every table. -/
+
+/-- **lock_nesting_no_cycle** (soundness of the check, all edge lists): if `lockGraphAcyclic es = true` there is
+no lock `l` with a non-empty walk `l → … → l` along "holds → acquires" edges of `es`; in particular no self-edge
+`l → l` (re-acquisition of a non-reentrant mutex, `RLock` inside `RLock`) and no inversion `a → b`, `b → a`. -/
+theorem lock_nesting_no_cycle (es : List LockEdge) (h : lockGraphAcyclic es = true) (l : Nat) :
+    ¬ Path (lockGraph es) l l :=
+  no_cycle_of_graphAcyclic h l
+
+/-- The same with the cycle written out as a list of locks `l₀ → l₁ → … → lₖ → l₀`. -/
+theorem lock_nesting_no_cycle_list (es : List LockEdge) (h : lockGraphAcyclic es = true) (l₀ : Nat) (ls : List Nat) :
+    ¬ Walk (lockGraph es) l₀ ls l₀ :=
+  fun hw => no_cycle_of_graphAcyclic h l₀ (Walk.toPath ls l₀ l₀ hw)
+
+/-- **lock_nesting_acyclic.** Kernel evaluation on the table extracted from the current source. -/
+theorem lock_nesting_acyclic : lockGraphAcyclic lockEdges = true := by
+  decide +kernel
+
+/-- Hence: the extracted lock-nesting graph of the current source has no cycle. -/
+theorem extracted_lock_graph_has_no_cycle (l : Nat) : ¬ Path (lockGraph lockEdges) l l :=
+  lock_nesting_no_cycle lockEdges lock_nesting_acyclic l
+
+/-- **loop_carried_locks_gated.** Where a loop over a collection takes the lock of the next element while it
+still holds the previous one (same lock name, distinct instances: `Session.updateStats` read-locks the bitfield
+of every torrent), the whole sequence runs under an exclusive lock (the bbolt write transaction), so two such
+sequences cannot interleave and wait for each other's elements. -/
+theorem loop_carried_locks_gated : loopCarriedGated loopCarried = true := by
+  decide +kernel
+
+/-- Non-vacuity: an inversion `A → B`, `B → A` is rejected … -/
+example : lockGraphAcyclic [⟨0, 0, 1, 0⟩, ⟨1, 1, 0, 0⟩] = false := by decide
+/-- … also when it is hidden among other edges and closed through a third lock, … -/
+example : lockGraphAcyclic [⟨0, 0, 1, 0⟩, ⟨0, 5, 6, 0⟩, ⟨1, 1, 2, 3⟩, ⟨2, 2, 0, 0⟩, ⟨2, 2, 7, 0⟩] = false := by decide
+/-- … a self-edge (re-acquisition, `RLock` inside `RLock`) is rejected, … -/
+example : lockGraphAcyclic [⟨0, 3, 3, 1⟩] = false := by decide
+/-- … a consistent order is accepted, and the extracted table is not empty. -/
+example : lockGraphAcyclic [⟨0, 0, 1, 0⟩, ⟨1, 1, 2, 0⟩, ⟨2, 0, 2, 0⟩] = true := by decide
+example : lockEdges.length > 0 := by decide +kernel
+/-- The hypothesis of `lock_nesting_no_cycle` is not what makes it true: the rejected inversion has a cycle. -/
+example : Path (lockGraph [⟨0, 0, 1, 0⟩, ⟨1, 1, 0, 0⟩]) 0 0 :=
+  Path.cons (b := 1) (by decide) (Path.single (by decide))
+
+/-! ### Lock-guarded fields of `Session` -/
+
+/-- The (function, field) pairs of the current source that touch a guarded field of `Session` without its mutex
+outside construction (finding C20-F5).  A pair not listed here fails `session_fields_guarded_except_known`. -/
+def knownSessionSites : List (String × String) := [
+  ("Session.CleanDatabase", "invalidTorrentIDs"),
+  ("Session.loadExistingTorrent", "availablePorts"),
+  ("rpcHandler.handleMoveTorrent", "torrents")
+]
+
+def sessNamed (a : SessAcc) : String × String := (sessFnNames.getD a.fn "?", sessFieldNames.getD a.field "?")
+
+/-- **session_fields_guarded_except_known.** Recomputed by the kernel from the extracted table: every access to a
+mutex-guarded field of `Session` that can run after construction holds the guard — exclusively for a write, at
+least shared for a read; lexically or in every caller — except the recorded sites. -/
+theorem session_fields_guarded_except_known :
+    ((sessUnguarded sessAccesses).map sessNamed).all (fun p => knownSessionSites.contains p) = true := by
+  decide +kernel
+
+/-- What the rule buys: two accesses that both satisfy it, to the same field written after construction, at least
+one of them a write, neither during construction, hold the same `RWMutex` — the writer exclusively, the other at
+least shared — so the mutex orders them. -/
+theorem session_guard_excludes (tbl : List SessAcc) (a b : SessAcc)
+    (ha : sessGuardOk tbl a = true) (hb : sessGuardOk tbl b = true)
+    (hca : a.ctor = false) (hcb : b.ctor = false) (hf : a.field = b.field)
+    (hw : sessFieldWritten tbl a.field = true) (haw : a.write = true) :
+    a.mode = 2 ∧ b.mode ≠ 0 := by
+  have hwb : sessFieldWritten tbl b.field = true := hf ▸ hw
+  unfold sessGuardOk at ha hb
+  simp only [hca, hcb, hw, hwb, haw, Bool.false_or, Bool.not_true, if_true] at ha hb
+  refine ⟨by simpa using ha, ?_⟩
+  cases hbw : b.write <;> simp [hbw] at hb <;> omega
+
+/-- Non-vacuity: the table has guarded accesses outside construction, the rule rejects an unguarded write … -/
+example : (sessAccesses.filter fun a => !a.ctor && a.mode != 0).length > 0 := by decide +kernel
+example : sessUnguarded [⟨0, 0, true, 1, false⟩] = [⟨0, 0, true, 1, false⟩] := by decide
+/-- … and a read under a read lock next to a write under the write lock is accepted. -/
+example : sessUnguarded [⟨0, 0, true, 2, false⟩, ⟨1, 0, false, 1, false⟩] = [] := by decide
 
 /-- **discipline_sound.** In any execution whose happens-before relation orders all events of the loop
 goroutine and all pairs of critical sections of one mutex, two events whose accesses do not `clash`
